@@ -559,15 +559,21 @@ def part_from_matchfile(
         # start of bar in quarter units
         bar_start = bar_times[note.Measure]
 
+        # the beat type of this bar. (bar_start comes from decimal numbers
+        # of the file (OnsetInBeats) and may lie a little before the true
+        # barline; at a change of time signature the bar has the signature
+        # in force just after it)
+        bar_beat_type = beat_type_map(bar_start + 1e-3)
+
         on_off_scale = 1
         # on_off_scale = 1 means duration and beat offset are given in
         # whole notes, else they're given in beats (as in the KAIST data)
         if not match_offset_duration_in_whole:
-            on_off_scale = beat_type_map(bar_start)
+            on_off_scale = bar_beat_type
 
         # offset within bar in quarter units adjusted for different
         # time signatures -> 4 / beat_type_map(bar_start)
-        bar_offset = (note.Beat - 1) * 4 / beat_type_map(bar_start)
+        bar_offset = (note.Beat - 1) * 4 / bar_beat_type
 
         # offset within beat in quarter units adjusted for different
         # time signatures -> 4 / beat_type_map(bar_start)
